@@ -4,6 +4,7 @@ import Bch.Drive.C03
 import Bch.Drive.C06
 import Bch.Drive.C05
 import Bch.Drive.C11
+import Bch.Drive.C13
 open Bch.Drive
 
 def dispatch (id : String) : Option Runner :=
@@ -19,6 +20,8 @@ def dispatch (id : String) : Option Runner :=
   | "C10" => some C10.run
   | "C11" => some C11.run
   | "C12" => some C11.run
+  | "C13" => some C13.run
+  | "C14" => some C13.run
   | _ => none
 
 def handle (line : String) : String :=
